@@ -54,7 +54,7 @@ def run(ded, repo, tier):
                            'refuted' if missing else 'proved', backend='ast', detail='not blocked: %r' % missing if missing else '',
                            model=dict(missing=missing)))
     ded.assume('keys and values are opaque hashable values with total, side-effect-free ==/hash')
-    ded.trust('not under contract (bounded only): OneToOne.__init__/copy/fromkeys/unique (update and |= are under contract: they preserve the invariant for any argument), ManyToMany.__init__/get/__getitem__/keys/__iter__/__eq__, the completeness and no-repetition half of iteritems, and update() from another ManyToMany (add, remove, __setitem__, __delitem__, replace, update from pairs or a mapping, __contains__, __len__ and the soundness half of iteritems - every yielded item is a pair of the relation - are under contract), FrozenDict.__hash__/updated/copy/pickle')
+    ded.trust('not under contract (bounded only): OneToOne.__init__/copy/fromkeys/unique (update and |= are under contract: they preserve the invariant for any argument), ManyToMany.__init__/keys/__iter__/__eq__, the completeness and no-repetition half of iteritems, and update() from another ManyToMany (add, remove, __setitem__, __delitem__, replace, update from pairs or a mapping, __contains__, __len__, __getitem__/get - a fresh set holding exactly the values of the key, KeyError / the default exactly for a key without pairs - and the soundness half of iteritems - every yielded item is a pair of the relation - are under contract), FrozenDict.__hash__/updated/copy/pickle')
     ded.assume('ManyToMany.update: the argument is not itself a ManyToMany (type(x) of an opaque value is not the class under verification); '
                'ManyToMany.__setitem__: set(vals) is a fresh set whose members are a function of vals; set difference, in-place difference, '
                'set.update and iteration over a set are encoded pointwise with lengths constrained only by len >= 0 and len == 0 iff empty')
